@@ -5,10 +5,19 @@ from props.polymod_common import *
 PROVED = ['[P] roots_sound: for every prime p (2 included), both build profiles, every f and every stream of random bytes: if find_linear_factors returns, '
           'every returned value lies in [0, p) and is a root of f modulo p (Horner value divisible by p)',
           '[P] roots_complete_set: conversely every root of f mod p lying in [0, p) is returned (set completeness, via Euler\'s criterion for the no-progress exit); '
-          'hence the set of returned values is exactly the root set, and the list is empty iff f has no root',
+          'hence the set of returned values is exactly the root set',
+          '[P] roots_complete_multiset: for every prime p (2 included), both profiles, every f and every draw stream: if find_linear_factors returns, every x of [0, p) '
+          'occurs in the returned list exactly k times, where k is the multiplicity of x as a root of f mod p (root_mult p f x k: f = (X - x)^k g mod p with g(x) <> 0 mod p). '
+          'Invariant: the values appended by a call on g are the root multiset of g; each step writes g = h g\' mod p (h = X - a, a gcd handed to the recursion, or 1) and '
+          'multiplicities add over products; the no-progress exit only fires on a rootless polynomial (Euler)',
+          '[P] root_mult_unique / root_mult_exists / root_mult_0_iff / root_mult_pos_root: the multiplicity is well defined for a prime p (unique; exists when f <> 0 mod p; '
+          '0 iff not a root; positive implies root)',
+          '[P] roots_planted: if f = (X - r1)...(X - rn) g mod p with g rootless mod p, the returned list is a permutation of [r1 mod p; ...; rn mod p]',
+          '[P] roots_split_length / roots_split_deg: if f = c (X - r1)...(X - rn) mod p with c <> 0 mod p (f splits), exactly n values are returned and n = deg(f mod p) (pdeg of poly_mod f p)',
+          '[P] roots_length_le_deg: in general at most deg(f mod p) values are returned (the returned r1..rn satisfy f = (X - r1)...(X - rn) g mod p)',
+          '[P] roots_nil_iff: the returned list is empty iff f has no root in [0, p)',
           '[P] roots_of_constant']
-NOT_PROVED = ['multiplicities: each root is returned exactly as often as its multiplicity (so length = deg when f splits); checked by the oracle (brute force / planted roots, always_oracle)',
-              'termination for all draw streams (false: only with probability 1)']
+NOT_PROVED = ['termination for all draw streams (false: only with probability 1)']
 PROFILES = ('debug', 'release')
 RULE = ('find_linear_factors on every coefficient vector up to a degree bound over F_2, F_3, F_5, F_7, F_11, F_13; planted roots with '
         'multiplicities <= 4 times an irreducible cofactor (degree 0, 2, 3, 4) over p up to 2^61-1 and beyond 2^64, coefficients disguised by '
@@ -17,8 +26,8 @@ RULE = ('find_linear_factors on every coefficient vector up to a degree bound ov
         'Non-trivial = degree >= 2 (at least one random shift is drawn).')
 CLAIM = dict(
     technique='Coq proof about the Gallina model of src/poly_mod/linear.rs (+ prim.rs) + extracted-model-vs-implementation correspondence with replayed random draws + independent oracle (root multiset)',
-    text='Proved for all inputs and all draw streams: soundness (every returned value is a root in [0,p)) and set completeness (every root is returned). The model is tied to /repo by running the extracted model and impl_svc on the same inputs and the same random bytes, in both build profiles.',
-    note='Multiplicities (multiset equality) are not proved; they are checked by the independent oracle on every explored input (always_oracle).',
+    text='Proved for all inputs and all draw streams (partial correctness: whenever the run returns): soundness (every returned value is a root in [0,p)), set completeness (every root is returned) and the multiset clause (every x of [0,p) is returned exactly as often as its multiplicity as a root of f mod p; hence a permutation of the planted roots when f = prod (X - r_i) * g with g rootless, length = deg(f mod p) when f splits and <= deg(f mod p) always, empty iff rootless). The model is tied to /repo by running the extracted model and impl_svc on the same inputs and the same random bytes, in both build profiles.',
+    note='Termination for every draw stream is not provable (it holds with probability 1 only); the statements are conditional on the run returning (the model uses explicit fuel). The independent root-multiset oracle still runs on every explored input (always_oracle).',
     ref='DESIGN.md section 4, C12')
 TIMEOUT = 1200
 
